@@ -53,6 +53,12 @@ class HubRun:
         for i in range(nservers):
             p = subprocess.Popen([copia, "serve", root], stdin=subprocess.PIPE, stdout=subprocess.PIPE, stderr=subprocess.PIPE, env=env)
             os.set_blocking(p.stdout.fileno(), False)
+            try:
+                # requests are written while the server may be held at a scheduling point: the pipe must take a whole one
+                import fcntl
+                fcntl.fcntl(p.stdin.fileno(), 1031, 1 << 20)       # F_SETPIPE_SZ
+            except OSError:
+                pass
             s = Server(i + 1, p)
             self.servers.append(s)
             self.by_pid[p.pid] = s
